@@ -324,20 +324,37 @@ impl DependencyGraph {
             })
         };
 
-        let thread_changed = match dg.transferred.entry(query) {
+        // `thread_changed`: the threads blocked on `query` (or on a query that transferred its lock to
+        // `query`) may have to be handed over to `new_owner_thread`.
+        // `new_mapping`: `query -> new_owner` has just been written and `query` still has to be
+        // registered as a dependent of `new_owner`.
+        let (thread_changed, new_mapping) = match dg.transferred.entry(query) {
             std::collections::hash_map::Entry::Vacant(entry) => {
                 // Transfer `c -> b` and there's no existing entry for `c`.
                 entry.insert((new_owner_thread, new_owner));
-                current_thread != new_owner_thread
+                (current_thread != new_owner_thread, true)
             }
-            std::collections::hash_map::Entry::Occupied(mut entry) => {
-                // If we transfer to the same owner as before, return immediately as this is a no-op.
-                if entry.get() == &(new_owner_thread, new_owner) {
+            std::collections::hash_map::Entry::Occupied(entry)
+                if entry.get() == &(new_owner_thread, new_owner) =>
+            {
+                // We transfer to the same owner as before: the transfer maps are up to date.
+                if current_thread == new_owner_thread {
+                    // ... and the owner runs on this thread: nothing to do.
                     #[cfg(salsa_verif)]
                     verif_line(dg, "noop", false);
                     return false;
                 }
 
+                // This thread re-claimed `query` (possible, because the new owner's thread is blocked
+                // on this thread). Threads that started waiting on `query` in the meantime recorded a
+                // dependency on *this* thread, but `query` now belongs to the new owner again. Hand
+                // them over exactly as for a first transfer: wake the new owner's thread if it is
+                // (or waits for) one of them and point the others at it. Leaving the edges alone
+                // makes `depends_on` answer for the wrong thread: a later transfer then wakes the
+                // wrong waiter and leaves the right one blocked on itself.
+                (true, false)
+            }
+            std::collections::hash_map::Entry::Occupied(mut entry) => {
                 // `Transfer `c -> b` after a previous `c -> d` mapping.
                 // Update the owner and remove the query from the old owner's dependents.
                 let &(old_owner_thread, old_owner) = entry.get();
@@ -401,14 +418,16 @@ impl DependencyGraph {
                 // We simply assume here that the thread has changed because we'd have to walk the entire
                 // transferred chaine of `old_owner` to know if the thread has changed. This won't save us much
                 // compared to just updating all dependent threads.
-                true
+                (true, true)
             }
         };
 
-        // Register `c` as a dependent of `b`.
-        let all_dependents = dg.transferred_dependents.entry(new_owner).or_default();
-        debug_assert!(!all_dependents.contains(&new_owner));
-        all_dependents.push(query);
+        if new_mapping {
+            // Register `c` as a dependent of `b`.
+            let all_dependents = dg.transferred_dependents.entry(new_owner).or_default();
+            debug_assert!(!all_dependents.contains(&new_owner));
+            all_dependents.push(query);
+        }
 
         if thread_changed {
             tracing::debug!("Unblocking new owner of transfer target {new_owner:?}");
